@@ -135,24 +135,36 @@ Section LadderP.
 
   Lemma is_help_shape tokens : is_help tokens = true <->
     (exists b t, tokens = [b; t] /\ (In t HELP_WORDS \/ In t HELP_FLAGS2 \/ In t HELP_TRAILING)) \/
-    (exists l r, tokens = r ++ [l] /\ (3 <= length tokens <= 4)%nat /\ In l HELP_TRAILING).
+    (exists b mid l, tokens = b :: mid ++ [l] /\ (1 <= length mid <= 2)%nat /\ In l HELP_TRAILING /\
+                     forallb subcommand_word mid = true).
   Proof.
     split.
     - destruct tokens as [|b [|t [|x rest]]]; cbn [is_help]; try discriminate.
       + intro H. left. exists b, t. split; [reflexivity|].
         apply orb_true_iff in H as [H|H]; [apply orb_true_iff in H as [H|H]|]; apply mem_str_In in H; auto.
-      + intro H. apply andb_true_iff in H as [Hl Hm]. right.
-        destruct (rev (b :: t :: x :: rest)) as [|l rr] eqn:Er; [discriminate|].
-        exists l, (rev rr). split.
-        * rewrite <- (rev_involutive (b :: t :: x :: rest)), Er. reflexivity.
-        * split; [apply Nat.leb_le in Hl; cbn [length] in *; lia|apply mem_str_In, Hm].
-    - intros [[b [t [-> H]]]|[l [r [-> [Hlen Hin]]]]].
+      + intro H. apply andb_true_iff in H as [H Hsub]. apply andb_true_iff in H as [Hl Hm]. right.
+        destruct (rev (t :: x :: rest)) as [|l rr] eqn:Er.
+        { apply (f_equal (@length str)) in Er. rewrite rev_length in Er. discriminate. }
+        assert (Et : t :: x :: rest = rev rr ++ [l]).
+        { rewrite <- (rev_involutive (t :: x :: rest)), Er. reflexivity. }
+        exists b, (rev rr), l. rewrite Et. split; [reflexivity|].
+        assert (Hrev : rev (b :: rev rr ++ [l]) = l :: rr ++ [b]).
+        { cbn [rev]. rewrite rev_app_distr, rev_involutive. reflexivity. }
+        rewrite Et in Hm, Hsub, Hl. rewrite Hrev in Hm. cbn [tl] in Hsub. rewrite removelast_last in Hsub.
+        split; [|split; [apply mem_str_In, Hm|exact Hsub]].
+        apply Nat.leb_le in Hl. cbn [length] in Hl. rewrite app_length in Hl. cbn [length] in Hl.
+        assert (0 < length (rev rr))%nat.
+        { destruct (rev rr) eqn:E; [|cbn [length]; lia]. cbn [app] in Et. discriminate. }
+        lia.
+    - intros [[b [t [-> H]]]|[b [mid [l [-> [Hlen [Hin Hsub]]]]]]].
       + cbn [is_help]. destruct H as [H|[H|H]]; apply mem_str_In in H; rewrite H; rewrite ?orb_true_r; reflexivity.
-      + destruct r as [|b [|t r']]; cbn [app length] in Hlen; try lia.
-        assert (E : exists x y, r' ++ [l] = x :: y) by (destruct r'; cbn [app]; eauto).
-        destruct E as [x [y E]]. cbn [app]. rewrite E. cbn [is_help]. rewrite <- E. apply andb_true_iff. split.
-        * apply Nat.leb_le. cbn [length] in *. lia.
-        * change (b :: t :: r' ++ [l]) with ((b :: t :: r') ++ [l]). rewrite rev_unit. apply mem_str_In, Hin.
+      + destruct mid as [|t mid']; [cbn [length] in Hlen; lia|].
+        assert (E : exists x y, mid' ++ [l] = x :: y) by (destruct mid'; cbn [app]; eauto).
+        destruct E as [x [y E]]. cbn [app]. rewrite E. cbn [is_help]. rewrite <- E.
+        change (b :: t :: mid' ++ [l]) with ((b :: t :: mid') ++ [l]). rewrite rev_unit.
+        apply mem_str_In in Hin. rewrite Hin. cbn [tl app].
+        change (t :: mid' ++ [l]) with ((t :: mid') ++ [l]). rewrite removelast_last, Hsub.
+        rewrite !andb_true_r. apply Nat.leb_le. cbn [length] in *. rewrite app_length. cbn [length]. lia.
   Qed.
 
   (* C04: the plain forms of the pure wrappers are transparent *)
@@ -237,7 +249,7 @@ Section LadderP.
   Lemma handler_decides c words t tk r :
     skip_assignments words = t :: tk -> reaches_handler c (t :: tk) r ->
     ladder c words =
-    if is_help (t :: tk) && negb (match h_action r with HDelegate => true | _ => false end) && negb (h_handles_help r) then Allow
+    if is_help (t :: tk) && negb (match h_action r with HDelegate => true | _ => nonempty (h_targets r) end) && negb (h_handles_help r) then Allow
     else match (if snd c then None else targets_verdict mredir (fst c) (h_targets r)) with
          | Some v => v
          | None => match h_action r with
